@@ -606,6 +606,7 @@ VALUE_SAFE_HAND = {
     "torch-like state dict (BINPERSID storage, _rebuild_tensor_v2, OrderedDict + BUILD)",
     "MEMOIZE overwriting the slot an explicit BINPUT used", "callee fetched from a slot MEMOIZE overwrote (print -> os.system)", "sparse memo: a lone BINPUT 2", "INST without arguments",
     "OBJ with two arguments", "NEWOBJ_EX with keyword names that are a reserved word / not NFKC-normal / ordinary", "os.system by INST (protocol 0)",
+    "OBJ inside an enclosing MARK (the arguments end at the innermost mark)", "INST inside an enclosing MARK", "empty batches: MARK SETITEMS, MARK APPENDS, MARK ADDITEMS",
     "EXT1 -> collections.OrderedDict", "EXT2 -> os.system, called", "EXT4 -> collections.OrderedDict",
     "header-less NEWTRUE at offset 0", "header-less NEWFALSE at offset 0", "header-less EMPTY_SET at offset 0", "header-less EMPTY_TUPLE at offset 0", "header-less EMPTY_LIST at offset 0", "header-less EMPTY_DICT at offset 0", "header-less NONE at offset 0",
 }
